@@ -1,12 +1,15 @@
 package kernel
 
 import (
+	crand "crypto/rand"
 	"fmt"
 	"github.com/emitter-io/emitter/internal/verifauto"
+	"io"
 	"os"
 	"runtime/debug"
 	"strconv"
 	"strings"
+	"sync"
 	"testing"
 	"testing/synctest"
 	"time"
@@ -80,6 +83,10 @@ func RunOnce(t *testing.T, w *World, tape *Tape, trace bool, known []KnownFindin
 	// the order in which the code under test walks its replicated maps is part of the run: a
 	// function of the run's seed (tools/autoyield routes those walks through verifauto.Keys)
 	verifauto.OrderSeed = tape.Seed | 1
+	// crypto/rand is a source of choice too (key salts, nonces): for the length of the run its Reader
+	// is a stream derived from the run's seed, so two runs of one seed draw the same "random" bytes
+	defer func(old io.Reader) { crand.Reader = old }(crand.Reader)
+	crand.Reader = &seededReader{x: tape.Seed ^ 0x5eed5eed5eed5eed}
 	res := &Result{}
 	body := func() {
 		defer func() {
@@ -219,4 +226,26 @@ func stepSpans(r *Result) [][2]int {
 		}
 	}
 	return out
+}
+
+// seededReader is a splitmix64 byte stream (not secure; it stands in for crypto/rand inside a run).
+type seededReader struct {
+	mu sync.Mutex
+	x  uint64
+}
+
+func (r *seededReader) Read(p []byte) (int, error) {
+	r.mu.Lock()
+	defer r.mu.Unlock()
+	for i := range p {
+		if i%8 == 0 {
+			r.x += 0x9e3779b97f4a7c15
+		}
+		z := r.x
+		z = (z ^ (z >> 30)) * 0xbf58476d1ce4e5b9
+		z = (z ^ (z >> 27)) * 0x94d049bb133111eb
+		z ^= z >> 31
+		p[i] = byte(z >> (8 * uint(i%8)))
+	}
+	return len(p), nil
 }
